@@ -204,7 +204,7 @@ def run(ctx):
         l0_conc(ctx, "t4", 4, ["owner", "weak"], ["reset1", "lock", "wreset"], live=False)
         conc_phase(ctx, "impl-t2", exe, two, props)
         l0_conc(ctx, "t2p2", 2, ["owner", "weak", "both"], ["reset1", "share", "wfrom", "lock", "wreset"], plen=2)
-        conc_phase(ctx, "impl-t2p2", exe, two_op_scenarios(False), props)
+        conc_phase(ctx, "impl-t2p2", exe, two_op_scenarios(False), props, maxruns=3000, max_events=8000000)
         conc_phase(ctx, "impl-t2-noclr", exe, [s for s in two if "none" not in s and ("lock" in s or "reset1" in s)], props, clr=False)
         three = [scen([a, b, c]) for a, b, c in [
             (("owner", "reset1"), ("weak", "lock"), ("weak", "lock")),
